@@ -690,6 +690,12 @@ func (eval Evaluator) MulRelinNew(op0 *rlwe.Ciphertext, op1 rlwe.Operand) (opOut
 
 func (eval Evaluator) tensorStandard(op0 *rlwe.Ciphertext, op1 *rlwe.Element[ring.Poly], relin bool, opOut *rlwe.Ciphertext) (err error) {
 
+	// The operand of degree zero, if there is one, is multiplied with every component of the other one: it
+	// must be the second operand (the tensoring below reads the first component of op1 only in that case)
+	if op0.Degree() == 0 && op1.Degree() != 0 {
+		return fmt.Errorf("cannot Tensor: the first operand is of degree 0 and the second one of degree %d: the operand of degree 0 must be the second one", op1.Degree())
+	}
+
 	// The relinearisation key is looked up before anything is written: a missing key must leave the receiver intact
 	var rlk *rlwe.RelinearizationKey
 	if relin && op0.Degree() == 1 && op1.Degree() == 1 {
@@ -1002,6 +1008,12 @@ func (eval Evaluator) MulRelinScaleInvariantNew(op0 *rlwe.Ciphertext, op1 rlwe.O
 
 // tensorScaleInvariant computes (ct0 x ct1) * (t/Q) and stores the result in opOut.
 func (eval Evaluator) tensorScaleInvariant(ct0 *rlwe.Ciphertext, ct1 *rlwe.Element[ring.Poly], relin bool, opOut *rlwe.Ciphertext) (err error) {
+
+	// The operand of degree zero, if there is one, is multiplied with every component of the other one: it
+	// must be the second operand (the tensoring below reads the first component of ct1 only in that case)
+	if ct0.Degree() == 0 && ct1.Degree() != 0 {
+		return fmt.Errorf("cannot TensorInvariant: the first operand is of degree 0 and the second one of degree %d: the operand of degree 0 must be the second one", ct1.Degree())
+	}
 
 	// The relinearisation key is looked up before anything is written: a missing key must leave the receiver intact
 	var rlk *rlwe.RelinearizationKey
@@ -1321,6 +1333,12 @@ func (eval Evaluator) MulRelinThenAdd(op0 *rlwe.Ciphertext, op1 rlwe.Operand, op
 }
 
 func (eval Evaluator) mulRelinThenAdd(op0 *rlwe.Ciphertext, op1 *rlwe.Element[ring.Poly], relin bool, opOut *rlwe.Ciphertext) (err error) {
+
+	// The operand of degree zero, if there is one, is multiplied with every component of the other one: it
+	// must be the second operand (the tensoring below reads the first component of op1 only in that case)
+	if op0.Degree() == 0 && op1.Degree() != 0 {
+		return fmt.Errorf("cannot MulThenAdd: the first operand is of degree 0 and the second one of degree %d: the operand of degree 0 must be the second one", op1.Degree())
+	}
 
 	// The relinearisation key is looked up before anything is written: a missing key must leave the receiver intact
 	var rlk *rlwe.RelinearizationKey
